@@ -61,12 +61,23 @@ func GenScenario(r *hc.RNG, w Weights) *Scenario {
 	}
 	for i := 0; i < n; i++ {
 		if r.Chance(w.Ack) {
+			// a msgs_ack batch: the call's id together with ids of other calls (pending, finished or
+			// not yet started), ids nobody waits for, and repeated ids, in any order — in particular
+			// unknown ids BEFORE pending ones
 			ids := []int64{allIDs[i]}
-			if r.Chance(30) {
-				ids = append(ids, allIDs[r.Intn(n)])
+			for r.Chance(35) && len(ids) < 5 {
+				switch r.Intn(3) {
+				case 0:
+					ids = append(ids, allIDs[r.Intn(n)])
+				case 1:
+					ids = append(ids, int64(90+r.Intn(3)))
+				case 2:
+					ids = append(ids, ids[r.Intn(len(ids))])
+				}
 			}
-			if r.Chance(20) {
-				ids = append(ids, int64(90+r.Intn(3)))
+			for j := len(ids) - 1; j > 0; j-- {
+				k := r.Intn(j + 1)
+				ids[j], ids[k] = ids[k], ids[j]
 			}
 			sc.Env = append(sc.Env, Option{Kind: "ack", IDs: ids})
 		}
@@ -91,10 +102,10 @@ func GenScenario(r *hc.RNG, w Weights) *Scenario {
 		sc.Env = append(sc.Env, Option{Kind: "adv", D: d})
 	}
 	if r.Chance(w.Close) {
-		sc.Env = append(sc.Env, Option{Kind: "close"})
+		sc.Env = append(sc.Env, Option{Kind: "close", ID: 1})
 	}
 	if r.Chance(w.FClose) {
-		sc.Env = append(sc.Env, Option{Kind: "fclose"})
+		sc.Env = append(sc.Env, Option{Kind: "fclose", ID: 2})
 	}
 	sc.Early = r.Chance(15)
 	sc.SendErr = r.Chance(15)
